@@ -400,7 +400,7 @@ func c01Run(c *Ctx) {
 		c.Sample(cs.Gen, cs.Src)
 	}
 	// 8b. parentheses around literal operands of every operator never change what is printed
-	plits := []string{"nil", True(), False(), "0", "1", "2.5", `""`, `"a"`, `"5"`, `"\u09e6\u09eb"`, "[]", "[1]", "({k: 1})"}
+	plits := []string{"nil", True(), False(), "0", "1", "2.5", `""`, `"a"`, `"5"`, "\"\u09e6\u09eb\"", "[]", "[1]", "({k: 1})"}
 	for _, a := range plits {
 		for _, op := range []string{"!", "-", "~"} {
 			if c.Mine() {
